@@ -548,6 +548,9 @@ func (P *Prog) sortLessProver(path []ast.Node, info *types.Info, X, I ast.Expr) 
 
 // rangeParamProver: X[i] inside a closure whose first parameter i ranges over
 // lo.Range(len(X)) — as mapFunc of common.AsyncMapReduce or callback of lo.Map/lo.ForEach.
+// The closure is written in place or bound to a local (`work := func(i int) …`) every use of
+// which is such a callback argument; the length may be taken directly or through a local
+// defined once as `n := len(X)` with X not reassigned up to the call.
 func (P *Prog) rangeParamProver(path []ast.Node, info *types.Info, X, I ast.Expr) (string, bool) {
 	id, ok := I.(*ast.Ident)
 	if !ok {
@@ -561,33 +564,91 @@ func (P *Prog) rangeParamProver(path []ast.Node, info *types.Info, X, I ast.Expr
 		if i+1 >= len(path) {
 			return "", false
 		}
-		call, ok := path[i+1].(*ast.CallExpr)
-		if !ok {
-			return "", false
-		}
 		if fl.Type.Params == nil || len(fl.Type.Params.List) == 0 || len(fl.Type.Params.List[0].Names) == 0 {
 			return "", false
 		}
 		if info.Defs[fl.Type.Params.List[0].Names[0]] != info.Uses[id] {
 			return "", false
 		}
-		callee := qualifiedCallee(info, call)
-		var src ast.Expr
-		switch {
-		case callee == modPath+"/common.AsyncMapReduce" && len(call.Args) == 4 && call.Args[2] == ast.Expr(fl):
-			src = call.Args[0]
-		case (callee == "github.com/samber/lo.Map" || callee == "github.com/samber/lo.ForEach") && len(call.Args) == 2 && call.Args[1] == ast.Expr(fl):
-			src = call.Args[0]
+		// the call sites the closure is handed to, each with its own enclosing path
+		type site struct {
+			call *ast.CallExpr
+			path []ast.Node // innermost first, starting at the call
+			fun  ast.Expr   // the argument that stands for the closure
+		}
+		var sites []site
+		switch p := path[i+1].(type) {
+		case *ast.CallExpr:
+			sites = append(sites, site{p, path[i+1:], fl})
+		case *ast.AssignStmt:
+			if len(p.Lhs) != 1 || len(p.Rhs) != 1 || p.Rhs[0] != ast.Expr(fl) || p.Tok != token.DEFINE {
+				return "", false
+			}
+			lid, isId := p.Lhs[0].(*ast.Ident)
+			if !isId || info.Defs[lid] == nil {
+				return "", false
+			}
+			obj := info.Defs[lid]
+			encl := enclosingFuncNode(path[i+1:])
+			if encl == nil {
+				return "", false
+			}
+			good := true
+			var stack []ast.Node
+			ast.Inspect(encl, func(n2 ast.Node) bool {
+				if n2 == nil {
+					stack = stack[:len(stack)-1]
+					return true
+				}
+				stack = append(stack, n2)
+				id2, isId := n2.(*ast.Ident)
+				if !isId || info.Uses[id2] != obj {
+					return true
+				}
+				// every use of the variable is an argument of a call
+				if len(stack) < 2 {
+					good = false
+					return true
+				}
+				c2, isCall := stack[len(stack)-2].(*ast.CallExpr)
+				if !isCall || c2.Fun == ast.Expr(id2) {
+					good = false
+					return true
+				}
+				rev := make([]ast.Node, 0, len(stack)-1)
+				for k := len(stack) - 2; k >= 0; k-- {
+					rev = append(rev, stack[k])
+				}
+				sites = append(sites, site{c2, rev, id2})
+				return true
+			})
+			if !good || len(sites) == 0 {
+				return "", false
+			}
 		default:
 			return "", false
 		}
-		rc, ok := src.(*ast.CallExpr)
-		if !ok || qualifiedCallee(info, rc) != "github.com/samber/lo.Range" || len(rc.Args) != 1 {
-			return "", false
-		}
-		arg, ok := isLenOf(info, rc.Args[0])
-		if !ok || idExpr(info, arg) != idExpr(info, X) {
-			return "", false
+		for _, s := range sites {
+			call := s.call
+			callee := qualifiedCallee(info, call)
+			var src ast.Expr
+			switch {
+			case callee == modPath+"/common.AsyncMapReduce" && len(call.Args) == 4 && call.Args[2] == s.fun:
+				src = call.Args[0]
+			case (callee == "github.com/samber/lo.Map" || callee == "github.com/samber/lo.ForEach") && len(call.Args) == 2 && call.Args[1] == s.fun:
+				src = call.Args[0]
+			default:
+				return "", false
+			}
+			rc, ok := src.(*ast.CallExpr)
+			if !ok || qualifiedCallee(info, rc) != "github.com/samber/lo.Range" || len(rc.Args) != 1 {
+				return "", false
+			}
+			cfc := &factCtx{info: info, path: s.path, fn: enclosingFuncNode(s.path), use: call.Pos()}
+			arg, ok := cfc.lenArg(rc.Args[0])
+			if !ok || idExpr(info, arg) != idExpr(info, X) {
+				return "", false
+			}
 		}
 		// the indexed expression must not be reassigned inside the closure
 		fc := &factCtx{info: info, path: path, fn: fl, use: path[0].Pos()}
